@@ -1164,3 +1164,11 @@ package op
 //@   modifies nothing
 //@   ensures opens-under-own-key: callarg("crypto.DecryptAES", 0) == s && callarg("crypto.DecryptAES", 1) == c.key
 //@        && result0 == callres("crypto.DecryptAES", 0) && result1 == callres("crypto.DecryptAES", 1)
+
+// ---- C20: the per-request verifier getters of a shared Provider write nothing (no lazily cached state) ----
+//@ func op.Provider.AccessTokenVerifier
+//@   requires valid(o)
+//@   modifies nothing
+//@   ensures per-request-issuer: callarg("op.NewAccessTokenVerifier", 0) == callres("op.IssuerFromContext", 0)
+//@   ensures access-token-key-set: callarg("op.NewAccessTokenVerifier", 1) == old(o.accessTokenKeySet)
+//@   ensures fresh-verifier: result == callres("op.NewAccessTokenVerifier", 0)
